@@ -28,6 +28,7 @@ func init() {
 			{"C05-R5", "every requested name answered on a full push", c05r5},
 			{"C05-R6", "a forced (warming) response is never lost or narrowed", func(c *Ctx) { alwaysRespondForces(c); c.Floor(4) }},
 			{"C05-R7", "names a reconnecting client retained are recorded for generator-managed types (shared with C03-R5)", c03r5},
+			{"C05-R8", "only an answered first request creates the per-type record", c05r8},
 		},
 	})
 }
@@ -397,4 +398,81 @@ func startPushFanOut(c *Ctx) {
 		det = "the push fan-out consults the connection's initialised state (" + pathTo(reach, acc.Fn) + "): a snapshot built while a (re)connecting proxy is between addCon and MarkInitialized is never enqueued for it, defeating register-before-initialise"
 	}
 	c.Check("StartPush:no initialisation filter before Enqueue", acc.Pos, !filters, det)
+}
+
+// C05-R8: only an answered first request creates the record. "No record for this type on this stream" is what makes the
+// classifiers answer a re-sent subscription unconditionally after a reconnect (C05-R1). The record is therefore created
+// exactly where that answer is given; in particular the NACK branch, which answers nothing, must not create it: the
+// update literals created under the ErrorDetail != nil edge return their argument (or nil) and nothing there stores into
+// the WatchedResources map. If a first-request NACK leaves a record behind, the subscription that follows is compared
+// with a nonce this stream never sent and is dropped as stale - the client stays warming.
+func c05r8(c *Ctx) {
+	p := c.P
+	n := 0
+	for _, fn := range classifierFuncs(p) {
+		var nack []Edge
+		for _, i := range allIfs(fn) {
+			if x, eq, ok := nilCmp(i.Cond); ok && loadOfFieldNamed(x, "ErrorDetail") {
+				idx := 0
+				if eq {
+					idx = 1
+				}
+				nack = append(nack, Edge{i.Block(), idx})
+			}
+		}
+		c.Check(fn.Name()+": the NACK branch found", fn.Pos(), len(nack) >= 1, "no test of request.ErrorDetail")
+		eachInstr(fn, func(ins ssa.Instruction) {
+			if !underEdges(fn, ins.Block(), nack) {
+				return
+			}
+			switch x := ins.(type) {
+			case *ssa.MapUpdate:
+				if f := fieldOfLoad(x.Map); f != nil && f.Name() == "WatchedResources" {
+					n++
+					c.Check(fn.Name()+": a rejection does not create the record", x.Pos(), false,
+						"the NACK branch stores a record into WatchedResources: the type then counts as known on this stream although nothing was answered, and the re-sent subscription that follows is judged against a nonce this stream never sent")
+				}
+			case *ssa.MakeClosure:
+				lit, ok := x.Fn.(*ssa.Function)
+				if !ok || len(lit.Params) != 1 {
+					return
+				}
+				par := lit.Params[0]
+				for _, b := range lit.Blocks {
+					r, ok := b.Instrs[len(b.Instrs)-1].(*ssa.Return)
+					if !ok || len(r.Results) != 1 {
+						continue
+					}
+					n++
+					okAll := true
+					seen := map[ssa.Value]bool{}
+					var walk func(v ssa.Value)
+					walk = func(v ssa.Value) {
+						if seen[v] {
+							return
+						}
+						seen[v] = true
+						if v == ssa.Value(par) {
+							return
+						}
+						if k, ok := v.(*ssa.Const); ok && k.IsNil() {
+							return
+						}
+						if phi, ok := v.(*ssa.Phi); ok {
+							for _, e := range phi.Edges {
+								walk(e)
+							}
+							return
+						}
+						okAll = false
+					}
+					walk(retVal(r, 0))
+					c.Check(fn.Name()+": a rejection does not create the record", r.Pos(), okAll,
+						"the update callback of the NACK branch can return a record other than the one it was given: a first-request NACK then leaves a record behind, the type counts as known on this stream although nothing was answered, and the re-sent subscription that follows is compared with a nonce this stream never sent and dropped - the client stays warming")
+				}
+			}
+		})
+	}
+	c.Check("NACK update callbacks found", token.NoPos, n >= 2, "fewer update callbacks under the NACK edge than confirmed by hand (one per classifier)")
+	c.Floor(4)
 }
